@@ -34,8 +34,8 @@ def run_batches(o, binary, batches, pid_tag):
             n = int(name[-1])
             keys = [(b"\xff\xfe" if n % 4 == 1 else b"K" * 300) + b"%02d" % i for i in range(16)]
         disk = any(st.get("directio") for c in cases for st in c)
-        # the directory argument is spelled in different (equivalent) ways: clean, trailing slash, "//", "/./", glob metacharacters in the name
-        style = ["", "slash", "dslash", "dot", "glob"][sum(map(ord, name)) % 5] if pid_tag == "C01" else ""
+        # the directory argument is spelled in different (equivalent) ways: clean, trailing slash, "//", "/./", glob metacharacters in the name, relative
+        style = ["", "slash", "dslash", "dot", "glob", "rel"][sum(map(ord, name)) % 6] if pid_tag == "C01" else ""
         trace = dbrun.run_db_batch(binary, pid_tag + "-" + name, cases, gates=gates, seed=SEED, keys=keys, disk=disk, dirstyle=style)
         nok, bad, r = dbrun.judge_db(trace, o, "judge " + name)
         return trace, nok, bad, r
